@@ -224,6 +224,8 @@ def ini_candidates(ini):
     out.append((("images-ghost_platform", "kernel"), "vmlinuz"))
     if "stage2" in ini and "mainimage" in ini["stage2"]:
         out.append((("stage2", "mainimage"), "/abs/stage2.img"))
+    if "stage2" in ini and "instimage" in ini["stage2"]:
+        out.append((("stage2", "instimage"), "/abs/inst.img"))
     out.append((("checksums", "/abs/repomd.xml"), "sha256:aa"))
     out += [(("checksums", "odd-length"), "a" * n) for n in (0, 31, 33, 41, 65)]
     if "media" in ini:
